@@ -10,8 +10,12 @@ RULE = ("layouts of 1-3 steps whose last step has threshold 1-3 and 2-4 validly 
 ASSUMPTIONS = ["signatures present are non-malleable (ground-truth table)"]
 
 
-def variant(rng, mats, prods):
-    kind = rng.choice(["mat_hash", "prod_hash", "mat_extra", "prod_extra", "prod_missing", "prod_rename", "prod_alias", "prod_alias", "mat_alias",
+VARIANT_KINDS = ["mat_hash", "prod_hash", "mat_extra", "prod_extra", "prod_missing", "prod_rename", "prod_alias", "mat_alias",
+                 "prod_other_algorithm", "mat_other_algorithm", "prod_empty_record", "prod_more_algorithms"]
+
+
+def variant(rng, mats, prods, kind=None, alias_no=None):
+    kind = kind or rng.choice(["mat_hash", "prod_hash", "mat_extra", "prod_extra", "prod_missing", "prod_rename", "prod_alias", "prod_alias", "mat_alias",
                        "prod_other_algorithm", "prod_other_algorithm", "mat_other_algorithm", "prod_empty_record", "prod_more_algorithms"])
     m, p = {k: dict(v) for k, v in mats.items()}, {k: dict(v) for k, v in prods.items()}
     if kind == "mat_hash" and m:
@@ -42,9 +46,12 @@ def variant(rng, mats, prods):
         import unicodedata
         d = p if kind == "prod_alias" else m
         k = rng.choice(sorted(d))
-        alias = rng.choice([k.replace("/", "\\") if "/" in k else "./" + k, "./" + k, k.replace("/", "//") if "/" in k else k + "/",
-                            k.upper() if k.upper() != k else k.lower(), unicodedata.normalize("NFD", k) if unicodedata.normalize("NFD", k) != k else k + " ",
-                            k + " "])
+        if alias_no is not None and any("/" in x for x in d):
+            k = rng.choice(sorted(x for x in d if "/" in x))      # (a path with a separator, so that every spelling differs)
+        spellings = [k.replace("/", "\\") if "/" in k else "./" + k, "./" + k, k.replace("/", "//") if "/" in k else k + "/",
+                     k.upper() if k.upper() != k else k.lower(), unicodedata.normalize("NFD", k) if unicodedata.normalize("NFD", k) != k else k + " ",
+                     k + " "]
+        alias = spellings[alias_no % len(spellings)] if alias_no is not None else rng.choice(spellings)
         if alias == k:
             alias = k + " "
         if rng.random() < 0.5:
@@ -57,7 +64,7 @@ def variant(rng, mats, prods):
     return kind, m, p
 
 
-def gen_case(rng, root):
+def gen_case(rng, root, case_no=None):
     # the focus step is the last of 1-3 steps; the earlier ones are ordinary single-functionary steps
     ch = scen.gen_chain(rng, root, n_steps=rng.choice([1, 1, 2, 3]), n_insp=0, thresholds=(1,), max_funcs=1)
     ch.closed = False
@@ -72,11 +79,17 @@ def gen_case(rng, root):
     thr = rng.choice([1, 2, 2, 3])
     base = (step["materials"], step["products"])
     ndiss = rng.choice([0, 0, 1, 1, 2])
+    if case_no is not None and case_no % 2 == 0:
+        ndiss = max(ndiss, 1)      # (every kind of dissent occurs in every run: cycled through, not drawn)
     diss_idx = set(rng.sample(range(nf), min(ndiss, nf)))
     links, files = [], []
     for j, k in enumerate(funcs):
         if j in diss_idx:
-            kind, m, p = variant(rng, *base)
+            if case_no is not None and case_no % 2 == 0:
+                kind, m, p = variant(rng, *base, kind=VARIANT_KINDS[(case_no // 2) % len(VARIANT_KINDS)],
+                                     alias_no=case_no // 2 // len(VARIANT_KINDS))
+            else:
+                kind, m, p = variant(rng, *base)
         else:
             kind, (m, p) = None, base
         tamper = rng.choice([None] * 6 + ["sig", "unsigned"])
@@ -113,10 +126,10 @@ def summary_arts(i, base_materials=None):
     return s["materials"], s["products"]
 
 
-def one_case(rng, res):
+def one_case(rng, res, case_no=None):
     root = scen.new_root()
     try:
-        ch, desc = gen_case(rng, root)
+        ch, desc = gen_case(rng, root, case_no)
         scn = scen.build(ch, root, rng)
         scn.params = vcommon.pick_params(rng, desc)
         nontrivial = desc["threshold"] > 1 or any(f["differs"] for f in desc["files"])
@@ -141,8 +154,8 @@ def one_case(rng, res):
 def shard(seed, idx, n, tier):
     res = core.Result()
     rng = core.rng_for(seed, "c05", idx)
-    for _ in range(n):
-        one_case(rng, res)
+    for j in range(n):
+        one_case(rng, res, case_no=idx * n + j)
     if idx < 6 and W.gpg_available():
         # a step that asks for two functionaries and gets: two agreeing links of ONE gpg functionary (two of its subkeys)
         # and a link another functionary recorded for another step (family shared with C08) - one functionary, not two
